@@ -209,7 +209,13 @@ pub fn run_batch(ctx: &Ctx, seqs: Vec<Seq>, opts_of: impl Fn(&Seq) -> RunOpts + 
                     b.samples.push(seq.text());
                 }
                 let relevant: Vec<Diff> = out.diffs.iter().filter(|d| facets.contains(&d.facet)).cloned().collect();
-                if !relevant.is_empty() && b.failures.len() + b.pending < 3 {
+                let oracle_like_all = ["oracle", "decoder", "sync-oracle", "trace", "ro-bytes", "determ"];
+                let n_model = b.failures.iter().filter(|f| !oracle_like_all.contains(&f.facet.as_str())).count();
+                let n_oracle = b.failures.len() - n_model;
+                // up to 3 model-only disagreements are reported, but the scan goes on until an
+                // implementation-side oracle has failed as well (up to 2 of those)
+                if !relevant.is_empty() && n_oracle < 2 && b.failures.len() + b.pending < 12 {
+                    let _ = n_model;
                     b.pending += 1;
                     drop(b);
                     // prefer a facet judged by an implementation-side oracle: it is a concrete failing input
@@ -218,7 +224,22 @@ pub fn run_batch(ctx: &Ctx, seqs: Vec<Seq>, opts_of: impl Fn(&Seq) -> RunOpts + 
                         .find(|f| relevant.iter().any(|d| d.facet == **f))
                         .copied()
                         .unwrap_or(relevant[0].facet);
-                    let relevant: Vec<Diff> = relevant.iter().filter(|d| d.facet == facet).cloned().collect();
+                    let oracle_like = ["oracle", "decoder", "sync-oracle", "trace", "ro-bytes", "determ"];
+                    let (facet, relevant) = if !oracle_like.contains(&facet) {
+                        // only the model disagrees so far: run the whole sequence on (no early stop) and see
+                        // whether an implementation-side oracle fails later — that is the concrete failing input
+                        let mut o2 = opts_of(seq);
+                        o2.stop_first = false;
+                        let out_all = run_fresh(ctx, seq, &format!("{}_all", tag), &o2);
+                        match oracle_like.iter().find(|f| facets.contains(*f) && out_all.diffs.iter().any(|d| d.facet == **f)) {
+                            Some(f) => (*f, out_all.diffs.iter().filter(|d| d.facet == *f).cloned().collect::<Vec<Diff>>()),
+                            None => (facet, relevant.iter().filter(|d| d.facet == facet).cloned().collect()),
+                        }
+                    } else {
+                        (facet, relevant.iter().filter(|d| d.facet == facet).cloned().collect::<Vec<Diff>>())
+                    };
+                    let mut opts = opts;
+                    opts.stop_first = false;
                     let small = shrink(ctx, seq, facet, &format!("{}_shr", tag), &opts);
                     let out2 = run_fresh(ctx, &small, &format!("{}_shr2", tag), &opts);
                     let d2: Vec<Diff> = out2.diffs.iter().filter(|d| d.facet == facet).cloned().collect();
@@ -234,7 +255,19 @@ pub fn run_batch(ctx: &Ctx, seqs: Vec<Seq>, opts_of: impl Fn(&Seq) -> RunOpts + 
             });
         }
     });
-    Arc::try_unwrap(batch).ok().unwrap().into_inner().unwrap()
+    let mut b = Arc::try_unwrap(batch).ok().unwrap().into_inner().unwrap();
+    // report every oracle-judged failure and at most 3 model-only disagreements
+    let oracle_like_all = ["oracle", "decoder", "sync-oracle", "trace", "ro-bytes", "determ"];
+    let mut kept_model = 0;
+    b.failures.retain(|f| {
+        if oracle_like_all.contains(&f.facet.as_str()) {
+            true
+        } else {
+            kept_model += 1;
+            kept_model <= 3
+        }
+    });
+    b
 }
 
 pub fn batch_json(ctx: &Ctx, scenario: &str, b: &Batch, extra: Vec<(&str, String)>) -> String {
@@ -307,7 +340,7 @@ fn scen_replay(ctx: &Ctx) -> i32 {
         return 2;
     };
     let cmp_every = ctx.args.get("cmp-every").and_then(|s| s.parse::<u8>().ok());
-    let out = run_fresh(ctx, &seq, "replay", &RunOpts { cmp_every, stop_first: false, ..Default::default() });
+    let out = run_fresh(ctx, &seq, "replay", &RunOpts { cmp_every, stop_first: false, decoder: true, check_inv: true, parse_check: ctx.args.contains_key("parse"), ..Default::default() });
     for l in &out.transcript {
         println!("{}", l);
     }
@@ -369,6 +402,11 @@ pub fn scen_prop_hist(ctx: &Ctx) -> i32 {
                 p.w = [55, 8, 22, 2, 2, 0, 1, 0, 0, 0, 0, 0, 0, 0];
             }
             _ => {}
+        }
+        if matches!(prop, "C01" | "C05" | "C08") && i % (if prop == "C08" { 2 } else { 6 }) == 1 {
+            let ckt = if r.chance(1, 2) { Kt::Bytes } else { Kt::Str };
+            seqs.push(gen_cascade(&mut r, ckt, if ctx.tier_thorough { 300 } else { 120 }));
+            continue;
         }
         seqs.push(gen_history(&mut r, &p));
     }
@@ -1245,6 +1283,18 @@ pub fn scen_sentinel(ctx: &Ctx) -> i32 {
             ops.push(Op::Get(z.clone()));
         }
         seqs.push(Seq { kt, params: Params::buckets(*[1u64, 4, 64].get(ci % 3).unwrap()), ops });
+    }
+    // key records that exactly fill their slot, value file beyond 16 KiB / 128 KiB / 2 MiB (offset-width
+    // boundaries of the raw and of the scaled offset): rewriting such a record must not touch its neighbour
+    let mut rng = Rng::new(ctx.seed ^ fnv("sentinel"));
+    for i in 0..sizes(ctx, 24, 200) {
+        let mut r = rng.fork(i as u64);
+        let (lo, hi) = *r.pick(&[(16_400u64, 17_500u64), (131_300, 140_000), (131_300, 140_000), (2_097_300, 2_100_000)]);
+        let ckt = if r.chance(1, 2) { Kt::Bytes } else { Kt::Str };
+        seqs.push(gen_cascade_infl(&mut r, ckt, 60, lo, hi));
+        if let Ok(d) = std::env::var("ABYSS_DUMP") {
+            let _ = std::fs::write(format!("{}/casc_{}.txt", d, i), seqs.last().unwrap().text());
+        }
     }
     let b = run_batch(ctx, seqs, |_| RunOpts { cmp_every: Some(1), cmp_end: true, decoder: true, ..Default::default() }, &["bytes", "api", "oracle", "decoder"], "sentinel");
     finish(ctx, "sentinel", &b, vec![])
